@@ -90,3 +90,18 @@ Proof.
   - intros n s orc. exact (ask_post_spec R lg pw v sp actf st n s orc).
   - intros k fit cands z. exact (tell_post_spec R lg pw sp actf st k fit cands z).
 Qed.
+
+(* several search() calls on ONE search object: the history of the object is the concatenation of the calls' histories; the
+   points handed out are the concatenation of the calls' points, and the state a later call starts from satisfies the same
+   invariants as the initial one - so every later call is covered by ask_paths_original_space / ask_paths_canonical again *)
+Lemma history_composes : forall (R lg : Q -> Q) (pw : Q -> Q -> Q) sp actf v st evs1 evs2,
+  asked R lg pw v sp actf st (evs1 ++ evs2)%list =
+    (asked R lg pw v sp actf st evs1 ++ asked R lg pw v sp actf (final R lg pw v sp actf st evs1) evs2)%list /\
+  (v <> Pinned -> wf_space sp = true -> Inv R lg sp st -> Forall (ev_ok sp) evs1 -> Inv R lg sp (final R lg pw v sp actf st evs1)) /\
+  ((forall x, actf (deactivate sp actf x) = actf x) -> InvC sp actf st -> Forall (ev_canon sp actf) evs1 ->
+   InvC sp actf (final R lg pw Fixed sp actf st evs1)).
+Proof.
+  intros R lg pw sp actf v st evs1 evs2. split; [apply asked_app|]. split.
+  - intros NP W I H. exact (final_inv R lg pw sp actf W v NP evs1 st I H).
+  - intros ST I H. exact (final_invc R lg pw sp actf ST evs1 st I H).
+Qed.
